@@ -1155,6 +1155,23 @@ func buildByReading(opts *neat.Options) (*genetics.Population, error) {
 	return genetics.ReadPopulation(strings.NewReader(b.String()), opts)
 }
 
+// startGenomes, when non-nil, makes every run of a process start from the SAME start genome object per
+// seed name (as an application that runs several evolutions from one loaded genome does): whatever a
+// run leaves behind in the caller's genome is seen by the next run. C17 switches it on.
+var startGenomes map[string]*genetics.Genome
+
+func startGenome(name string, spec *GenomeSpec) *genetics.Genome {
+	if startGenomes == nil {
+		return spec.Build()
+	}
+	g, ok := startGenomes[name]
+	if !ok {
+		g = spec.Build()
+		startGenomes[name] = g
+	}
+	return g
+}
+
 // construct builds the scenario's initial population (its draws are part of the execution).
 func (r *popRun) construct() (*genetics.Population, error) {
 	if sp, ok := hbSpecs[r.sc.Seed]; ok {
@@ -1175,7 +1192,7 @@ func (r *popRun) construct() (*genetics.Population, error) {
 	if spec == nil {
 		panic("unknown seed " + r.sc.Seed)
 	}
-	return genetics.NewPopulation(spec.Build(), r.opts)
+	return genetics.NewPopulation(startGenome(r.sc.Seed, spec), r.opts)
 }
 
 // runEpochBody is the harness body: construct, then Epochs x (assign fitness, turn over, check).
